@@ -199,7 +199,15 @@ def run(prog: Program, res: Result) -> None:  # noqa: PLR0912, PLR0915
     if pinit is not None:
         for n in ast.walk(pinit.node):
             if isinstance(n, ast.If) and norm(n.test) == "isinstance(segment, str)":
-                ok = any(isinstance(c, ast.Call) and (dotted(c.func) or "") == "unescape" and c.args and norm(c.args[0]) == "segment" for b in n.body for c in ast.walk(b))
+                # every value stored for a string segment is the decoded one - on every arm of a conditional expression, under no further test
+                def _decoded(e: ast.AST) -> bool:
+                    if isinstance(e, ast.IfExp):
+                        return _decoded(e.body) and _decoded(e.orelse)
+                    return isinstance(e, ast.Call) and (dotted(e.func) or "") == "unescape" and bool(e.args) and norm(e.args[0]) == "segment"
+
+                stores = [c for b in n.body for c in ast.walk(b) if isinstance(c, ast.Call) and isinstance(c.func, ast.Attribute) and c.func.attr in ("append", "insert", "extend") and norm(c.func.value) == "self.path" and c.args]
+                top = [b.value for b in n.body if isinstance(b, ast.Expr)]
+                ok = bool(stores) and all(_decoded(c.args[-1]) for c in stores) and all(c in top for c in stores)
     if ok:
         res.ok("C20.R3", f"{path_cls.file}:{pinit.node.lineno} Path.__init__", what, "self.path.append(unescape(segment, token))")
     else:
